@@ -33,7 +33,7 @@ SERVER = ["iodined", "user", "fw_query"]
 WRAPS = ["select", "read", "write", "close", "open", "ioctl", "fcntl", "socket",
          "bind", "setsockopt", "sendto", "recvfrom", "recvmsg", "recv", "time",
          "sleep", "system", "exit", "rand", "srand", "err", "errx", "geteuid",
-         "syslog", "openlog", "daemon"]
+         "syslog", "openlog", "daemon", "access"]
 
 SAN = ["-fsanitize=address,undefined", "-fno-sanitize=shift-base", "-fno-sanitize-recover=undefined",
        "-fno-omit-frame-pointer", "-fno-common"]
